@@ -26,6 +26,10 @@
 (* another value and stray bytes follow, located by Size(), and marshalled   *)
 (* again. Trees that no Set sequence can build (repeated keys, ECMA counts)  *)
 (* enter as raw values: they exist on the wire only.                         *)
+(* Here a container is complete when it is Set into its parent and a value   *)
+(* is marshalled once; Amf0Live.tla is the machine of the histories in which *)
+(* attached objects are changed, decoded trees edited, and the same object   *)
+(* marshalled again.                                                         *)
 EXTENDS Naturals, Sequences, LD
 
 CONSTANTS
@@ -35,6 +39,8 @@ CONSTANTS
                 \*   "strict-count-zero"  a strict array built with Set is written with count 0
                 \*   "keyed-writer"       the writer uses the keyed strict layout, the reader the specification's
                 \*   "skip-unknown"       an unsupported marker is skipped as a 1-byte value
+                \*   "marshal-cache"      (Amf0Live.tla) a container remembers the bytes of its last marshal and forgets
+                \*                        them only when Set is called on itself, not when a value below it changes
   Scalars,      \* builder alphabet: scalar values
   Keys,         \* builder alphabet: property names (text fields)
   Kinds,        \* builder alphabet: container kinds, subset of {"obj", "ecma", "strict"}
